@@ -60,6 +60,15 @@ def stateless_consumers():
         # cluster (pinned by the library's own test), so whether the lower cluster is decided 0 or 1 depends on where it falls inside the bin
         "LLRThresholder(hard)": (lambda: S.LLRThresholder(), "any"),
         "MinDistanceThresholder": (lambda: S.MinDistanceThresholder(input_type=L), "any"),
+        # option values that leave the decision rule 'sign of the LLR' untouched: reference points given bit-0 first, far apart, as a symmetric
+        # multi-level grid or unordered; other noise variances; confidence scalings (a weight other than 1 moves the threshold by design and is not such an option)
+        "MinDistanceThresholder(refs=[2,-2])": (lambda: S.MinDistanceThresholder(reference_points=torch.tensor([2.0, -2.0]), input_type=L), "any"),
+        "MinDistanceThresholder(refs=[50,-50])": (lambda: S.MinDistanceThresholder(reference_points=torch.tensor([50.0, -50.0]), input_type=L), "any"),
+        "MinDistanceThresholder(refs=grid6)": (lambda: S.MinDistanceThresholder(reference_points=torch.tensor([-8.0, -3.0, -1.0, 1.0, 3.0, 8.0]), input_type=L), "any"),
+        "MinDistanceThresholder(refs=unordered4)": (lambda: S.MinDistanceThresholder(reference_points=torch.tensor([1.0, -1.0, 3.0, -3.0]), input_type=L), "any"),
+        "MinDistanceThresholder(noise_var=0.1)": (lambda: S.MinDistanceThresholder(noise_var=0.1, input_type=L), "any"),
+        "LLRThresholder(scaling=0.25)": (lambda: S.LLRThresholder(confidence_scaling=0.25), "any"),
+        "LLRThresholder(scaling=8)": (lambda: S.LLRThresholder(confidence_scaling=8.0), "any"),
         "HysteresisThresholder": (lambda: S.HysteresisThresholder(input_type=L), "ge1"),
         "WeightedThresholder": (lambda: S.WeightedThresholder(weights=1.0, input_type=L), "any"),
         "DynamicThresholder": (lambda: S.DynamicThresholder(input_type=L), "both"),
